@@ -1,2 +1,2 @@
 // C06: the program /c06/uobj inherits.  No variables: the harness addresses x0..x3 of /c06/uobj as variables 0..3.
-int base_fn (int x) { return x + 1; }
+mixed base_fn (mixed x) { return ({ x }); }
